@@ -37,6 +37,9 @@ type Case struct {
 	G      rt.Global      `json:"global"`
 	Routes []rt.RouteSpec `json:"routes"`
 	Reqs   []rt.Req       `json:"reqs"`
+	// PresetAllow: the response header already carries this Allow value when the router is entered (set by an outer net/http
+	// middleware); the Allow header of the answer lists the computed methods all the same.
+	PresetAllow string `json:"preset_allow,omitempty"`
 }
 
 func hasBoth(pats []string) bool {
@@ -146,13 +149,16 @@ func checkCase(c *Case, count bool) error {
 			}
 			continue
 		}
+		if c.PresetAllow != "" {
+			r.Preset = http.Header{"Allow": {c.PresetAllow}}
+		}
 		sv := r.ServeReq(q)
 		desc := fmt.Sprintf("options=%+v routes=%v request %s host=%q path=%q: methods serving this host and path = %v; ", c.G, r.Routes, q.Method, q.Host, q.Path, setStr(serves))
 		if len(sv.Hits) != 1 {
 			return fmt.Errorf("%sServeHTTP ran %d handlers", desc, len(sv.Hits))
 		}
 		h := sv.Hits[0]
-		allow := splitAllow(sv.Header.Get("Allow"))
+		allow := splitAllow(strings.Join(sv.Header.Values("Allow"), ", "))
 		expect := own
 		var wantAllow [][]string // acceptable Allow sets
 		if own == "unserved" {
@@ -212,7 +218,7 @@ func checkCase(c *Case, count bool) error {
 				}
 			}
 			if !ok {
-				return fmt.Errorf("%s%s handler ran with Allow %q, want the set %v", desc, h.Kind, sv.Header.Get("Allow"), wantAllow[len(wantAllow)-1])
+				return fmt.Errorf("%s%s handler ran with Allow %q (Allow %q was on the response header before), want the set %v", desc, h.Kind, sv.Header.Values("Allow"), c.PresetAllow, wantAllow[len(wantAllow)-1])
 			}
 		}
 		if h.Kind != "route" {
@@ -255,6 +261,9 @@ func genCase(t *rapid.T) *Case {
 	c.G.TS = gen.Pick(t, []int{rt.TSNone, rt.TSIgnore, rt.TSRedirect}, "globalTS")
 	c.G.NoMethod = rapid.Bool().Draw(t, "noMethod")
 	c.G.AutoOptions = rapid.Bool().Draw(t, "autoOptions")
+	if gen.Chance(t, 1, 4, "presetallow") {
+		c.PresetAllow = gen.Pick(t, []string{"TRACE", "GET, BREW", "OPTIONS"}, "presetallowvalue")
+	}
 	n := gen.IntR(t, 1, 6, "npatterns")
 	hostW := gen.Pick(t, []int{3, 1000, 1000}, "hostweight")
 	var pool []string
